@@ -40,6 +40,7 @@ theorem pol_stateAfter (pol : Policy) (pre : List Op) : (stateAfter pol pre).pol
       | newRun => rfl
       | stopRun => rfl
       | reconnect => rfl
+      | dupStart => rfl
       | tags mr ups => simp only [step]; split <;> rfl
   exact gen pre (initWith pol)
 
